@@ -46,7 +46,10 @@
 // tree and one per retained version, driven by the property statement only:
 // every read of the working tree and of every retained version must equal the
 // map's answer (value, presence, rank, i-th entry, size, range filter of the
-// sorted keys in both directions, inclusive or not); after every mutating op one
+// sorted keys in both directions, inclusive or not; every `it` on the working tree is also
+// run through MutableTree.Iterator(start, end, asc) on BOTH trees — on the shadow that is the
+// UnsavedFastIterator merging the on-disk index with the pending Set/Remove — and compared
+// with the working map, i.e. saved contents + pending changes); after every mutating op one
 // retained version is re-read completely and after save/load/delete/reopen ALL of
 // them, on both trees ("saved versions are immutable"); shadow vs primary as
 // above; and for proofs: the proof of the true answer verifies against the
@@ -59,7 +62,7 @@
 //
 // VIOL classes that are recorded findings of the unchanged tree
 // (known_findings/C30.json): ghost-version, flush-split, fast-stale-unsaved,
-// fast-empty-key.  Every other class (read, iterate, set, remove, immutable,
+// fast-empty-key.  Every other class (read, iterate, iterate-working, set, remove, immutable,
 // version-lost, prune-fail, reopen, balance, config-dependent, proof-*) fails the run.
 package main
 
@@ -571,6 +574,55 @@ func keyClass(i *inst, k []byte) string {
 		return "fast-stale-unsaved"
 	}
 	return "read"
+}
+
+// checkWorkingRange: MutableTree.Iterator(start, end, ascending) on the WORKING tree of
+// both instances — on the fast-index shadow this is the UnsavedFastIterator, which merges
+// the on-disk index with the unsaved additions / removals — must list exactly the entries
+// of the working map (saved contents + pending changes) with start <= key < end.
+func checkWorkingRange(d *verdict, args []string) {
+	if !known || len(args) != 4 {
+		return
+	}
+	asc, ok1 := pDir(args[0])
+	s, ok2 := pHexOpt(args[1])
+	e, ok3 := pHexOpt(args[2])
+	if !(ok1 && ok2 && ok3) {
+		return
+	}
+	want := expectRange(work, asc, s, e, false)
+	one := func(i *inst, who string) {
+		var got []string
+		itr, err := i.tree.Iterator(s, e, asc)
+		if err != nil {
+			d.fail("iterate-working", "%s(%+v): Iterator(%s,%s,%v): %s", who, i.cfg, hx(s), hx(e), asc, errClass(err))
+			return
+		}
+		for ; itr.Valid(); itr.Next() {
+			got = append(got, hk(itr.Key())+"="+hx(itr.Value()))
+		}
+		itr.Close()
+		if strings.Join(got, ",") == strings.Join(want, ",") {
+			return
+		}
+		cls := readClass(i, got, want)
+		if cls == "read" {
+			cls = "iterate-working"
+		}
+		if cls == "fast-stale-unsaved" {
+			if staleReported {
+				return
+			}
+			staleReported = true
+		}
+		d.fail(cls, "%s(%+v): working tree Iterator(%s,%s,asc=%v) yields %s, want %s", who, i.cfg, hx(s), hx(e), asc,
+			clip(joinOrDash(got)), clip(joinOrDash(want)))
+	}
+	one(prim, "primary")
+	if shadOK {
+		one(shad, "shadow")
+	}
+	d.ok()
 }
 
 // resync: the oracle cannot know the contents (e.g. the implementation loaded
@@ -1319,6 +1371,9 @@ func exec(toks []string) (string, string) {
 			}()
 			out, _ = readsOfTree(d, prim.tree.ImmutableTree, work, known, op, args)
 		}()
+		if op == "it" && out != badop {
+			checkWorkingRange(d, args)
+		}
 		return clip(out), d.String()
 
 	case "ver":
